@@ -914,7 +914,7 @@ class Interp:
         ks = kids(n)
         if ks:
             return self.expr(ks[0])
-        raise Gap("default member initialiser without expression")
+        return DEFAULT_ARG  # clang does not print the initialiser: the contract's constructor model supplies the default
 
     def e_IntegerLiteral(self, n):
         return z3.IntVal(int(n["value"]))
